@@ -12,6 +12,7 @@ Inductive invariant proof over the SpectralInformation API:
  R6 published   : the figures published after adding transmitter / add-drop noise receive one common added-noise term
                   computed from the RAW figures, so the identity survives update_snr (shared with C13-R2)
  Rm memo          : every memoisation construct in the functions behind this property is keyed by everything it reads.
+ Rp presence      : optional numeric fields are tested with `is None` / membership, never by truthiness (0 is a value).
 """
 import ast
 
@@ -386,7 +387,12 @@ from ..memo import rule_for as _memo_rule
 
 RULES_MEMO = ('Rm.memo', _memo_rule('C01', 'a stale share or GSNR would be reported after the spectrum was updated'))
 
-RULES = [('R6.published-figures', r6_published), ('R5.split-merge', r5_split_merge), ('R1.ownership', r1_ownership), ('R2.base', r2_base), ('R3.step', r3_step), ('R4.reported', r4_reported), RULES_MEMO]
+
+from ..presence import rule_for as _presence_rule
+
+RULES_PRESENCE = ('Rp.presence', _presence_rule('C01', 'a legal zero would be read as missing'))
+
+RULES = [('R6.published-figures', r6_published), ('R5.split-merge', r5_split_merge), ('R1.ownership', r1_ownership), ('R2.base', r2_base), ('R3.step', r3_step), ('R4.reported', r4_reported), RULES_MEMO, RULES_PRESENCE]
 
 
 def proof_keys(ctx):
